@@ -177,6 +177,29 @@ def run(ctx):
         except Skip:
             pass
 
+    # ---- R20.3b: the listing is keyed by the entries' own names (relative to the directory), and lookups use the marker as written
+    try:
+        from .. import pathx as _px4
+        ob = ctx.anchor_fn("R20.3", "project_origins::DirList::obtain")
+        inner = [c for c in facts.descendants(ob) if c.kind == "coroutine" and c.def_.count("{closure") == 3]
+        ent = ctx.anchor_one("R20.3", "DirList::obtain entry closure", inner)
+        vals = set()
+        for q in _px4.Enum().paths(thir.root(ent)):
+            if (q.val or "").startswith("Some"):
+                scr = [e[1] for e in q.ev if e[0] == "iflet"]
+                vals.add((q.val, scr[0] if scr else None))
+        ctx.require(vals == {("Some{0: (ToOwned::to_owned(path), file_type)}", "(Path::strip_prefix(DirEntry::path(entry), ^path), await DirEntry::file_type(entry))")},
+                    "R20.3", "listing-keys", "a listing maps each entry's own name (its path relative to the directory) to its file type", ent.loc(ent.line), detail=str(sorted(vals))[:300],
+                    fail="DirList::obtain no longer keys the listing by the entry's own relative path / type (%s): names are folded, so look-alikes count as markers or "
+                         "entries hide each other" % sorted(vals))
+        for kind in ("file", "dir"):
+            hf = ctx.anchor_fn("R20.3", "project_origins::DirList::has_" + kind)
+            ls = [_px4.desc(st["i"]) for st in thir.walk(thir.root(hf)) if isinstance(st, dict) and st.get("k") == "let" and isinstance(st.get("i"), dict)]
+            ctx.require(ls in ([], ["AsRef::as_ref(name)"]), "R20.3", "lookup-as-written:has_" + kind, "has_%s looks the marker name up as written" % kind, hf.loc(hf.line), detail=str(ls),
+                        fail="has_%s transforms the marker name before the lookup (%s)" % (kind, ls))
+    except Skip:
+        pass
+
     # ---- R20.2b: check_list(list) = some marker of the list is present (an empty listing has none)
     try:
         from .. import pathx as _px2
